@@ -31,6 +31,7 @@ const (
 	hdrTreeProt
 	hdrSigPad
 	hdrDupLabel
+	hdrWrapPayload
 	hdrVariants
 )
 
@@ -257,6 +258,16 @@ func applyNetFault(tok []byte, op Op, donor []byte) ([]byte, bool) {
 			np = append(np, val...)
 			nu := append(append([]byte{0xa1}, label...), val...)
 			return asm([]byte{0xd2}, cborBstr(np), nu, payload, sig), true
+		case hdrWrapPayload:
+			// "bstr .cbor claims": the signed claims wrapped once more in a byte string (optionally tag 24)
+			if !p.PayloadIsBstr {
+				return out, false
+			}
+			inner := cborBstr(p.Payload)
+			if abs(op.B)%2 == 1 {
+				inner = append([]byte{0xd8, 0x18}, inner...)
+			}
+			return asm([]byte{0xd2}, prot, unprot, cborBstr(inner), sig), true
 		case hdrTagPayload:
 			// the same claims behind a tag the claims decoder skips (or not): the signed bytes differ
 			if !p.PayloadIsBstr {
@@ -591,9 +602,18 @@ func applyRetypeFault(payload []byte, a, v int) ([]byte, bool) {
 				r = append(r, 0x3a, 0x00, 0x98, 0x96, 0x7f, 0x01) // -10000000: 1
 				return append(r, payload[iend:]...), true
 			}
-		default: // a tag in front of the item
+		default: // a tag in front of the item: seven tag numbers, each in all five head widths
+			tags := []uint64{32, 111, 24, 55799, 61, 1, 2}
+			tg := tags[(abs(a)/len(hs))%len(tags)]
+			w := []int{0, 1, 2, 4, 8}[(abs(a)/(len(hs)*len(tags)))%5]
+			var hd []byte
+			if w == 0 || (w == 1 && tg > 0xff) {
+				hd = encodeHead(6, tg)
+			} else {
+				hd = encodeHeadW(6, tg, w)
+			}
 			r := append([]byte{}, payload[:h.Off]...)
-			r = append(r, 0xd9, 0xd9, 0xf7) // self-described CBOR
+			r = append(r, hd...)
 			return append(r, payload[h.Off:]...), true
 		}
 	}
@@ -816,11 +836,17 @@ func applyJSONFault(doc []byte, a, b int) ([]byte, bool) {
 			}
 		}
 	}
-	v := abs(b) % (ns + 3)
+	v := abs(b) % (ns + 4)
 	if v >= ns && (n.kind != 'o' || len(n.keys) == 0) {
 		v = abs(b) % ns
 	}
 	switch {
+	case v == ns+3: // every member of the object once (or twice) more, in order: the last occurrence wins
+		keys, kids := n.keys, n.kids
+		for rep := 0; rep <= abs(a/7)%2; rep++ {
+			n.keys = append(n.keys, keys...)
+			n.kids = append(n.kids, kids...)
+		}
 	case v < ns:
 		*n = jnode{kind: 'v', raw: jsonSubst[v]}
 	case v == ns: // duplicate the first member
